@@ -261,6 +261,15 @@ func (ws *priorityWriteScheduler) OpenStream(streamID uint32, options OpenStream
 			panic(fmt.Sprintf("stream %d already opened", streamID))
 		}
 		curr.state = priorityNodeOpen
+		// The node is not idle any more: drop it from idleNodes, otherwise
+		// it is evicted from the tree (together with its queued frames)
+		// while the stream is open, once enough other idle nodes are added.
+		for i, n := range ws.idleNodes {
+			if n == curr {
+				ws.idleNodes = append(ws.idleNodes[:i], ws.idleNodes[i+1:]...)
+				break
+			}
+		}
 		return
 	}
 
